@@ -239,6 +239,11 @@ def run(prog, rep, tier):
     elif it == ("ext", "range", (L,), ()):
         idx = ("elem", it)
         ratio = ("sub", RATL, idx)
+    elif same_ratios(it) and inner.get("induction"):
+        # for ratio in ratios, the position kept in a counter by hand (the engine reads such a counter as the index)
+        RATL = it
+        L = ("ext", "len", (RATL,), ())
+        idx, ratio = ("idx", RATL), ("elem", RATL)
     else:
         peeled = peeled_iter(it, RAT, same_ratios)
         if peeled is None:
@@ -322,7 +327,7 @@ def run(prog, rep, tier):
         else:
             rep.bad("LAST.exact", fwhere(f, ap.node), "the remainder is not taken exactly by the last fold: bounded-slice condition by distance from the last fold = %s" % vals)
     # contiguity
-    start_names = [k for k in inner["init"]]
+    start_names = [k for k in inner["init"] if k not in inner.get("induction", {})]          # hand-kept position counters are the loop index, not a cursor
     okc, why = False, "no cursor variable"
     if len(start_names) == 1:
         nm = start_names[0]
